@@ -16,7 +16,9 @@ unrepaired tree is kept behind `fixed := false` so that the defects can be state
 Go strings are byte strings: `Bytes = List Nat` (every element < 256, not enforced: the code only
 compares bytes with constants).  The file below the handler is a correct seekable byte reader
 (that is property C09): reading `n` bytes at position `p` yields `take n (drop p content)`.
-Dates are parameters: the harness passes the result of `http.ParseTime` on each date header.
+Dates are parameters: the harness passes the result of `http.ParseTime` on each date header; the
+mtime is (seconds, nanoseconds): `Truncate(time.Second)` / `Unix()` are the seconds for the non-negative
+times UnixFS stores.
 Core-only (no Mathlib): this file is imported by the line-protocol driver.
 -/
 namespace C30
@@ -266,8 +268,10 @@ structure File where
   /-- getDirListingEtag / getDagIndexEtag of the same CID (handleIfNoneMatch checks them too) -/
   dirEtag : Bytes
   dagEtag : Bytes
-  /-- UnixFS mtime in Unix seconds; 0 = none (isZeroTime; immutable paths pass `noModtime`) -/
+  /-- UnixFS mtime: Unix seconds and fractional nanoseconds; (0, 0) = none (isZeroTime; immutable paths
+  pass `noModtime` = the Unix epoch) -/
   modSec : Int
+  modNanos : Nat := 0
 
 structure Req where
   head : Bool
@@ -298,6 +302,9 @@ structure Resp where
   body : Bytes := []
   deriving DecidableEq, Repr
 
+/-- `!isZeroTime(modtime)`: a Last-Modified header is sent and the date preconditions apply -/
+def hasMod (f : File) : Bool := f.modSec != 0 || f.modNanos != 0
+
 /-! ## checkPreconditions -/
 
 def checkIfMatch (f : File) (r : Req) : Cond :=
@@ -308,7 +315,7 @@ def checkIfMatch (f : File) (r : Req) : Cond :=
 def checkIfUnmodifiedSince (f : File) (r : Req) : Cond :=
   match r.iusT with
   | none => .none
-  | some t => if f.modSec == 0 then .none else if f.modSec ≤ t then .true else .false
+  | some t => if !hasMod f then .none else if f.modSec ≤ t then .true else .false
 
 def checkIfNoneMatch (f : File) (r : Req) : Cond :=
   if r.ifNoneMatch.isEmpty then .none
@@ -318,7 +325,7 @@ def checkIfNoneMatch (f : File) (r : Req) : Cond :=
 def checkIfModifiedSince (f : File) (r : Req) : Cond :=
   match r.imsT with
   | none => .none
-  | some t => if f.modSec == 0 then .none else if f.modSec ≤ t then .false else .true
+  | some t => if !hasMod f then .none else if f.modSec ≤ t then .false else .true
 
 /-- checkIfRange (method is GET or HEAD here). `modtime.IsZero()` is never true: an absent mtime is
 passed as the Unix epoch (`noModtime`), so a date of 1970-01-01 matches a file without mtime. -/
@@ -360,7 +367,7 @@ inductive Plan where
 
 def planContent (f : File) (r : Req) : Plan :=
   let size : Int := f.content.length
-  let lm := f.modSec != 0
+  let lm := hasMod f
   match checkPreconditions f r with
   | .notModified => .final { status := 304, etag := f.etag }    -- writeNotModified drops Last-Modified (ETag is set)
   | .failed => .final { status := 412, etag := f.etag, lastModified := lm }
@@ -394,9 +401,11 @@ def preSeek (fixed : Bool) (size : Int) : Option ByteRange → Option Int
         if start < 0 then (if fixed then some 0 else none) else some start
     else some ra.from
 
-/-- The whole GET/HEAD path for `/ipfs/<cid-of-file>`; `fixed = false` is the tree before the
-`fix:` commits (no re-positioning in httpServeContent, suffix longer than the file is an error). -/
-def serveWith (fixed : Bool) (f : File) (r : Req) : Resp :=
+/-- The whole GET/HEAD path for `/ipfs/<cid-of-file>`; `fixed = false` is the tree before the first two
+`fix:` commits (no re-positioning in httpServeContent, suffix longer than the file is an error — this is
+also what a backend whose reader cannot be repositioned, like the CAR backend, behaves like);
+`headFix = false` is the tree before "HEAD rejects a malformed Range header like GET does". -/
+def serveWith (fixed headFix : Bool) (f : File) (r : Req) : Resp :=
   let size : Int := f.content.length
   -- handler.handleIfNoneMatch (before anything is loaded)
   if !r.ifNoneMatch.isEmpty && etagMatchAny r.ifNoneMatch [f.etag, f.dirEtag, f.dagEtag] then
@@ -404,11 +413,13 @@ def serveWith (fixed : Bool) (f : File) (r : Req) : Resp :=
       else if etagMatchAny r.ifNoneMatch [f.dirEtag] then f.dirEtag else f.dagEtag
     { status := 304, etag := m }
   else if r.head then
+    -- (after "HEAD rejects a malformed Range header like GET does") the same syntax check as GET, then
     -- backend.Head, serveFile with the first bytes for sniffing, httpServeContent without a body
-    match planContent f r with
+    if headFix && (parseRangeWL r.range).isNone then { status := 400 }
+    else match planContent f r with
     | .final resp => resp
     | .send st cr _ n =>
-      { status := st, contentRange := cr, contentLength := some n, lastModified := f.modSec != 0, etag := f.etag }
+      { status := st, contentRange := cr, contentLength := some n, lastModified := hasMod f, etag := f.etag }
   else
     -- serveDefaults, GET
     match parseRangeWL r.range with
@@ -426,10 +437,10 @@ def serveWith (fixed : Bool) (f : File) (r : Req) : Resp :=
         | .final resp => resp
         | .send st cr start n =>
           let pos := if fixed && seekable then start else pos0
-          { status := st, contentRange := cr, contentLength := some n, lastModified := f.modSec != 0,
+          { status := st, contentRange := cr, contentLength := some n, lastModified := hasMod f,
             etag := f.etag, body := readAt f.content pos n }
 
-def serve (f : File) (r : Req) : Resp := serveWith true f r
+def serve (f : File) (r : Req) : Resp := serveWith true true f r
 
 /-- content generator shared with the Go harness: a position-identifying byte pattern -/
 def genContent (seed size : Nat) : Bytes :=
